@@ -82,6 +82,9 @@ impl BitmapEvent {
                     rle_16_decompress(&self.data, self.width as usize, self.height as usize, &mut result)?;
                     result
                 } else {
+                    if self.data.len() < self.width as usize * self.height as usize * 2 {
+                        return Err(Error::RdpError(RdpError::new(RdpErrorKind::InvalidSize, "bitmap data shorter than width * height pixels")))
+                    }
                     let mut result = vec![0 as u16; self.width as usize * self.height as usize];
                     for i in 0..self.height {
                         for j in 0..self.width {
